@@ -39,6 +39,8 @@ def mutants(text, rnd, limit):
 def total_items(tier, seed):
     rnd = random.Random(seed + 13)
     items = []
+    ODD = ['\x0b', '\x0c', '\x1c', '\x1f', '\x85', '\xa0', '\u1680', '\u2003', '\u2028', '\u2029', '\u3000', '\u200b', '\ufeff',
+           '\x00', '\x7f', '\x1b', 'å', '☃', '$', '@', '`', '\\', '\r']
     progs = oalcheck.corpus('quick', seed + 1)[:12 if tier == 'quick' else 150]
     out, _ = oalcheck.unparse_stage(progs)
     import os
@@ -50,9 +52,16 @@ def total_items(tier, seed):
         text, _ = render(o['toks'], rnd.randint(0, 10 ** 9), 'lower', 'mixed')
         for m in mutants(text, rnd, 40 if tier == 'quick' else 400):
             items.append({'total': True, 'text': m})
+        # a stray character somewhere in (at the start, at the end of) an otherwise valid text
+        for _ in range(6 if tier == 'quick' else 40):
+            k = rnd.choice([0, len(text), rnd.randint(0, len(text))])
+            items.append({'total': True, 'text': text[:k] + rnd.choice(ODD) + text[k:]})
     for _ in range(150 if tier == 'quick' else 5000):
         items.append({'total': True, 'text': ' '.join(rnd.choice(VOCAB) for _ in range(rnd.randint(1, 40)))})
-    alphabet = "abcXYZ019 \t\n'\"();,-.*/\\#$%&?@[]{}|~^=+<>!:\x00\x7få☃"
+    # (characters that are white space to Python but not to the lexer, controls, non-ASCII letters and symbols)
+    ODD = ['\x0b', '\x0c', '\x1c', '\x1f', '\x85', '\xa0', '\u1680', '\u2003', '\u2028', '\u2029', '\u3000', '\u200b', '\ufeff',
+           '\x00', '\x7f', '\x1b', 'å', '☃', '$', '@', '`', '\\', '\r']
+    alphabet = list("abcXYZ019 \t\n'\"();,-.*/\\#$%&?@[]{}|~^=+<>!:\x00\x7få☃") + ODD
     for _ in range(100 if tier == 'quick' else 3000):
         items.append({'total': True, 'text': ''.join(rnd.choice(alphabet) for _ in range(rnd.randint(1, 200)))})
     # unterminated and adversarial forms (bounded time: 2 s for at most 2 kB)
